@@ -86,6 +86,21 @@ def observe(spec):
                             forests.append([type(e).__name__, str(e)[:300]])
                     obs["forests"] = hashlib.sha256(json.dumps(forests).encode()).hexdigest()
                     obs["forest_sizes"] = [x[0] for x in forests]
+                    # the same with consume_input=False: several accepted heads (one per sentence prefix)
+                    # are merged into one forest, whose order must not depend on the process either
+                    with contextlib.redirect_stdout(io.StringIO()), contextlib.redirect_stderr(io.StringIO()):
+                        pp = cls(mk(), tables=tb, consume_input=False)
+                    pforests = []
+                    for text in spec["inputs"]:
+                        try:
+                            f = pp.parse(text)
+                            n = f.solutions
+                            pforests.append([n if n < 10 ** 9 else str(n)] +
+                                            [f[i].to_str() for i in range(min(n, 25))])
+                        except Exception as e:
+                            pforests.append([type(e).__name__, str(e)[:300]])
+                    obs["prefix_forests"] = hashlib.sha256(json.dumps(pforests).encode()).hexdigest()
+                    obs["prefix_forest_sizes"] = [x[0] for x in pforests]
                 else:
                     res = []
                     from pv import budget
